@@ -42,7 +42,9 @@ func (s *c28GenSt) addTo(n int) {
 	}
 }
 
-// rewind to l, look at the header, then add the dropped leaves again
+// rewind to l, look at the header, (prove every remaining key on the real tree bucket right
+// after the rewind, rewind a second time without an Add in between,) then add the dropped
+// leaves again
 func (s *c28GenSt) rewindAndRestore(l int, reopen bool) {
 	g := s.g
 	old := s.leaves
@@ -51,6 +53,24 @@ func (s *c28GenSt) rewindAndRestore(l int, reopen bool) {
 	if reopen && l != 0 {
 		g.Emit("reopen")
 		g.Emit("hdr")
+	}
+	if l > 0 && g.Intn(2) == 0 {
+		// Finalize + Prove directly after the rewind: the partial nodes of the new right
+		// spine must be in the tree bucket
+		g.Emit("checkall 1")
+		if g.Intn(2) == 0 {
+			g.Emit("prove %d 0", l-1)
+		}
+	}
+	if l > 1 && g.Intn(2) == 0 {
+		// second rewind with no Add in between
+		b := g.Intn(l)
+		g.Emit("setlen %d", b)
+		g.Emit("hdr")
+		if b > 0 {
+			g.Emit("checkall 1")
+		}
+		l = b
 	}
 	for _, h := range old[l:] {
 		g.Emit("add %s", hx(h))
@@ -173,6 +193,22 @@ func c28Random(g *Gen, maxN int) {
 		g.Emit("setlen %d", l)
 		s.leaves = s.leaves[:l]
 		g.Emit("hdr")
+		if l > 0 && g.Intn(2) == 0 {
+			// prove on the real tree bucket right after the rewind, then rewind again
+			g.Emit("checkall %d", 1+l/30)
+			g.Emit("prove %d 0", l-1)
+			if l > 1 {
+				b := g.Pick(1, l-1, 1+g.Intn(l-1), (l-1)-(l-1)%16)
+				if b < 1 {
+					b = 1
+				}
+				g.Emit("setlen %d", b)
+				s.leaves = s.leaves[:b]
+				l = b
+				g.Emit("hdr")
+				g.Emit("checkall %d", 1+l/30)
+			}
+		}
 		if g.Intn(3) == 0 {
 			g.Emit("reopen")
 			g.Emit("hdr")
@@ -650,6 +686,9 @@ func (r *c28Runner) Step(t []string, o *Oracle) (out string) {
 		for key := 0; key < n; key += step {
 			p, err := pt.Prove(int64(key), 0)
 			if err != nil {
+				if !r.malformed {
+					o.Check(false, "hexary-prove-fails", "Prove(%d,0) at length %d after Finalize: %v", key, n, err)
+				}
 				continue
 			}
 			var leaf []byte
